@@ -38,7 +38,7 @@ prop("C11", ["contracts.c11_nmt"],
 
 prop("C17", ["contracts.c10_network", "contracts.c11_nmt", "contracts.c17_periodic"],
      ["SyncStart", "SyncStop", "SyncStopStart", "PdoStart", "PdoStartNoPeriod", "PdoStop", "PdoUpdate", "HeartbeatStart",
-      "HeartbeatOnWrite", "HeartbeatStateChange", "NodeGuarding", "TaskUpdate", "PdoStartSetUpdate", "Disconnect", "PeriodicInit", "SlaveSendCommand"],
+      "HeartbeatOnWrite", "HeartbeatAtBootUp", "HeartbeatStateChange", "NodeGuarding", "TaskUpdate", "PdoStartSetUpdate", "Disconnect", "PeriodicInit", "SlaveSendCommand"],
      assumed=["python-can cyclic task model (env/stubs.py TaskStub): a task transmits the payload snapshot taken at creation "
               "(or at modify_data) with its period until stop(); `live` = started - stopped is ghost state derived from the event trace",
               "Network.disconnect is proved for 2 nodes x 2 maps in all 16 running/idle configurations (quick) plus 3x3, 1x4 and 4x1 in selected / all configurations (thorough): enumerated, not for arbitrary counts"],
